@@ -87,4 +87,17 @@ theorem C17_parse_iff_arm (m : List Nat) : (parse Gen.cancun m).isSome ↔ m ∈
   rw [C17_from_str.2.2]
   simp only [parse, Option.isSome_map, List.find?_isSome, List.mem_map, beq_iff_eq]
 
+/-- the opcodes a fork has (per the specification) that the fork's table does NOT define -/
+def missingFromTable (f : Fork) (t : OpTable) : List Nat :=
+  (List.range 256).filter (fun b => (ofFork f b).isSome && isUndefRow (rowOf t b))
+
+/-- The converse direction of "defined only if the fork has it" — which the property does not ask for, but which matters
+to the analysis properties: the London and Shanghai tables define every opcode of their fork; the Cancun table lacks
+exactly BLOBHASH 0x49, BLOBBASEFEE 0x4a, TLOAD 0x5c, TSTORE 0x5d (finding D27: the analysis treats these real Cancun
+opcodes as halting invalid instructions). Kernel evaluation over the regenerated tables: the day etk adds the rows this
+theorem stops checking and the finding is obsolete. -/
+theorem C17_fork_completeness :
+    missingFromTable .london Gen.london = [] ∧ missingFromTable .shanghai Gen.shanghai = [] ∧
+    missingFromTable .cancun Gen.cancun = [0x49, 0x4a, 0x5c, 0x5d] := by decide +kernel
+
 end EtkVerif.C17
